@@ -931,6 +931,97 @@ static int corr(uint64_t seed, const std::string& tier, const std::string& outdi
     return 0;
 }
 
+// ---------------------------------------------------------------- C20 probes with a time bound
+//
+//   deck probe20 <seed> <tier> <outdir>     prop.txt / prop_stats.json
+//
+// Two ways in which deck text makes the parser run forever (design.d/C20.lexer.md, second round);
+// each call runs in a child process under alarm(): a child killed by SIGALRM is the failure.
+#include <csignal>
+#include <functional>
+#include <sys/resource.h>
+#include <sys/wait.h>
+#include <unistd.h>
+
+static int runChild(const std::function<void()>& f, unsigned secs) {
+    pid_t pid = fork();
+    if (pid < 0) return -1;
+    if (pid == 0) {
+        struct rlimit rl; rl.rlim_cur = rl.rlim_max = 2048UL * 1024 * 1024; setrlimit(RLIMIT_AS, &rl);
+        alarm(secs);
+        try { f(); } catch (const std::exception&) { _exit(0); } catch (...) { _exit(3); }
+        _exit(0);
+    }
+    int st = 0;
+    waitpid(pid, &st, 0);
+    if (WIFSIGNALED(st)) return 1000 + WTERMSIG(st);
+    return WEXITSTATUS(st);
+}
+
+static int probe20(uint64_t seed, const std::string& tier, const std::string& outdir) {
+    (void) seed; (void) tier;
+    vh::PropLog log(outdir + "/prop.txt");
+    const std::string tmp = outdir + "/tmp";
+    std::string mk = "mkdir -p '" + tmp + "'";
+    if (std::system(mk.c_str()) != 0) return 2;
+    std::vector<std::string> seenKeys;
+    auto verdict = [&](int rc, const std::string& key, const std::string& what) {
+        if (rc == 1000 + SIGALRM) {
+            // one FAIL line per cause; further instances are only counted
+            if (std::find(seenKeys.begin(), seenKeys.end(), key) == seenKeys.end()) {
+                seenKeys.push_back(key);
+                log.fail(key, what + ": no result within the time bound (killed by the alarm)");
+            } else ++log.failed;
+        }
+        else if (rc >= 1000) log.fail("C20.probe_signal", what + ": killed by signal " + std::to_string(rc - 1000));
+        else if (rc == 3) log.fail("C20.probe_foreign_exception", what + ": exception not derived from std::exception");
+        else log.ok();
+    };
+    // (a) Parser::parseFile(file, ctx, errors, sections): skipping to the next section keyword
+    const std::vector<std::pair<std::string, std::string>> decks = {
+        {"control", "RUNSPEC\nGRID\nPROPS\nSOLUTION\nSCHEDULE\n"},
+        {"text_after_section_keyword", "RUNSPEC\nGRID\nPROPS X\nSOLUTION\nSCHEDULE\n"},
+        {"lower_case_section_keyword", "RUNSPEC\nGRID\nprops\nSOLUTION\nSCHEDULE\n"},
+        {"section_words_inside_title", "RUNSPEC\nTITLE\n GRID PROPS SOLUTION SCHEDULE\nGRID\n"}};
+    const std::vector<std::vector<Opm::Ecl::SectionType>> sels = {{Opm::Ecl::RUNSPEC}, {Opm::Ecl::RUNSPEC, Opm::Ecl::PROPS}};
+    for (const auto& d : decks) {
+        const std::string path = tmp + "/" + d.first + ".DATA";
+        vh::spit(path, d.second);
+        for (size_t k = 0; k < sels.size(); ++k) {
+            int rc = runChild([&]() {
+                Opm::Parser parser; Opm::ParseContext ctx; Opm::ErrorGuard errors;
+                auto deck = parser.parseFile(path, ctx, errors, sels[k]);
+                (void) deck; errors.clear();
+            }, 4);
+            verdict(rc, "C20.section_skip_hang", "parseFile(" + d.first + ", sections #" + std::to_string(k) + ")");
+        }
+    }
+    // (b) INCLUDE cycles
+    {
+        const std::string self = tmp + "/self.inc", a = tmp + "/a.inc", bb = tmp + "/b.inc", okf = tmp + "/ok.inc";
+        vh::spit(self, "INCLUDE\n '" + self + "' /\n");
+        vh::spit(a, "INCLUDE\n '" + bb + "' /\n");
+        vh::spit(bb, "OIL\nINCLUDE\n '" + a + "' /\n");
+        vh::spit(okf, "WATER\n");
+        const std::vector<std::pair<std::string, std::string>> texts = {
+            {"same_file_twice_in_sequence", "RUNSPEC\nINCLUDE\n '" + okf + "' /\nINCLUDE\n '" + okf + "' /\n"},
+            {"file_includes_itself", "RUNSPEC\nINCLUDE\n '" + self + "' /\n"},
+            {"two_files_include_each_other", "RUNSPEC\nINCLUDE\n '" + a + "' /\n"}};
+        for (const auto& t : texts) {
+            int rc = runChild([&]() {
+                Opm::Parser parser; Opm::ParseContext ctx; Opm::ErrorGuard errors;
+                ctx.update(Opm::ParseContext::PARSE_MISSING_INCLUDE, Opm::InputErrorAction::THROW_EXCEPTION);
+                auto deck = parser.parseString(t.second, ctx, errors);
+                (void) deck; errors.clear();
+            }, 4);
+            verdict(rc, "C20.recursive_include_hang", "parseString(" + t.first + ")");
+        }
+    }
+    std::ofstream st(outdir + "/prop_stats.json");
+    st << "{\"checked\": " << (log.checked + log.failed) << ", \"failed\": " << log.failed << "}\n";
+    return 0;
+}
+
 static int canon(const std::string& in, const std::string& outp) {
     std::ifstream f(in);
     std::ofstream o(outp);
@@ -963,6 +1054,7 @@ int main(int argc, char** argv) {
     uint64_t seed = std::stoull(argv[2]);
     if (mode == "corr") return corr(seed, argv[3], argv[4], false);
     if (mode == "corrlex") return corr(seed, argv[3], argv[4], true);
+    if (mode == "probe20") return probe20(seed, argv[3], argv[4]);
     std::cerr << "unknown mode\n";
     return 2;
 }
